@@ -17,19 +17,23 @@ Open Scope N_scope.
 Definition C17_statement : Prop :=
   forall (c : config) (h rest : list event) (rc : Z) (t : tail),
     good c ->
-    proc (run c h) = Alive -> In ServerExitTask rest -> In ReaderRun rest ->
+    proc (run c h) = Alive ->
+    (needs c <= count_xtask rest)%nat ->     (* the exit watcher gets to run (twice if the hook suspends) *)
+    In ReaderRun rest ->                     (* the reader task gets to run *)
     let s0 := run c h in
     let s := run c (h ++ ProcExit rc t :: rest) in
     (* every request outstanding when the server dies is done (none pending) ... *)
     (forall i, aget (futs s0) i = Some Pending ->
        exists st, aget (futs s) i = Some st /\ is_done st = true) /\
-    (* ... and fails with the exit error unless an answer was in flight or the caller cancels it *)
+    (* ... and fails with the exit error unless a decodable answer was in flight or the caller
+       cancels it; an undecodable / unacceptable reply (BadReply) is not an answer *)
     (forall i, aget (futs s0) i = Some Pending -> no_reply_to i (pipe s0) = true ->
        no_cancel_of i rest = true -> aget (futs s) i = Some (FailedExit rc)) /\
     (* frame: what was resolved, failed or cancelled before the exit keeps its state *)
     (forall i st, aget (futs s0) i = Some st -> is_done st = true -> aget (futs s) i = Some st) /\
-    (* the hook ran exactly once (with the return code), also when it raises *)
-    hook_calls s = [rc] /\
+    (* the hook ran exactly once (with the return code) - whether it returns, raises, sleeps or
+       waits for the requests to settle - and when it started every request was already done *)
+    hook_calls s = [(rc, true)] /\
     stopped s = true /\
     (* stop() returns normally: no task exception is re-raised, nothing is waited for *)
     stop_outcome s = StopReturns.
@@ -40,31 +44,35 @@ Proof.
   destruct (client_exit c h rc t rest G A HX HR) as (F & Hh & Hs & Ho).
   split; [|split; [|split; [|split; [|split]]]]; try assumption.
   - intros i Hi. destruct (F i Pending Hi) as (st & B1 & B2 & _). eauto.
-  - intros i Hi Q NC. apply exit_fails_all_outstanding; assumption.
+  - intros i Hi Q NC. apply exit_fails_all_outstanding; try assumption. apply (needs_in c), HX.
   - intros i st Hi D. destruct (F i st Hi) as (st' & B1 & _ & B3). rewrite <- (B3 D). exact B1.
 Qed.
 Print Assumptions C17.
 
-(* Non-vacuity: three requests, the first answered and read, the second cancelled, a reply to the
-   third in flight, a fourth sent while the client has not yet noticed; server killed (-9) inside
-   a body; the caller calls stop() early; the exit watcher runs before the reader; raising hooks. *)
+(* Non-vacuity: five requests before the exit - the first answered and read, the second cancelled,
+   the third answered undecodably (read: stays outstanding), a reply to the fourth in flight, the
+   fifth unanswered; a sixth sent while the client has not yet noticed; server killed (-9) inside a
+   body; the caller calls stop() early; the exit watcher runs before the reader; the hook waits
+   for the requests to settle, a request is sent while it waits; raising error hook. *)
 Example C17_nonvacuous :
-  let c := repaired true true in
+  let c := repaired HookAwaits true in
   let h := [Send; SrvWrite (Reply 0 (RResult 7)); ReaderRun; Send; UserCancel 1; Send;
-            SrvWrite BadFrame; SrvWrite (Reply 2 (RError (-32000)%Z))] in
+            SrvWrite (BadReply 2); ReaderRun; Send; SrvWrite BadFrame;
+            SrvWrite (Reply 3 (RError (-32000)%Z)); Send] in
   let rest := [Send; Stop; ServerExitTask; Send; ReaderRun; ServerExitTask] in
-  good c /\ proc (run c h) = Alive /\ In ServerExitTask rest /\ In ReaderRun rest /\
-  map snd (futs (run c h)) = [Resolved 7; Cancelled; Pending] /\
+  good c /\ proc (run c h) = Alive /\ (needs c <= count_xtask rest)%nat /\ In ReaderRun rest /\
+  map snd (futs (run c h)) = [Resolved 7; Cancelled; Pending; Pending; Pending] /\
   map snd (futs (run c (h ++ ProcExit (-9)%Z TPartBody :: rest))) =
-    [Resolved 7; Cancelled; FailedExit (-9)%Z; FailedExit (-9)%Z; Pending] /\
-  hook_calls (run c (h ++ ProcExit (-9)%Z TPartBody :: rest)) = [(-9)%Z] /\
+    [Resolved 7; Cancelled; FailedExit (-9)%Z; FailedExit (-9)%Z; FailedExit (-9)%Z;
+     FailedExit (-9)%Z; Pending] /\
+  hook_calls (run c (h ++ ProcExit (-9)%Z TPartBody :: rest)) = [((-9)%Z, true)] /\
   stop_outcome (run c (h ++ ProcExit (-9)%Z TPartBody :: rest)) = StopReturns.
 Proof. vm_compute. repeat split; auto 10. Qed.
 
 (* Scope of the statement: a request sent after the exit has been handled is never failed by
    anybody (the property speaks of the requests outstanding when the server dies). *)
 Example C17_late_send_stays_pending :
-  map snd (futs (run (repaired false false) [ProcExit 0%Z TClean; ServerExitTask; ReaderRun; Send]))
+  map snd (futs (run (repaired HookOk false) [ProcExit 0%Z TClean; ServerExitTask; ReaderRun; Send]))
   = [Pending].
 Proof. vm_compute. reflexivity. Qed.
 
@@ -74,9 +82,9 @@ Proof. vm_compute. reflexivity. Qed.
 (* row 9: the server dies inside a body -> the reader task dies with IncompleteReadError and
    stop() re-raises it *)
 Theorem C17_pinned_refuted_eof :
-  let c := {| fix_eof := false; fix_wrap := true; hook_raises := false; errhook_raises := false |} in
+  let c := {| fix_eof := false; fix_wrap := true; hook := HookOk; errhook_raises := false |} in
   exists h rc t rest,
-    proc (run c h) = Alive /\ In ServerExitTask rest /\ In ReaderRun rest /\
+    proc (run c h) = Alive /\ (needs c <= count_xtask rest)%nat /\ In ReaderRun rest /\
     stop_outcome (run c (h ++ ProcExit rc t :: rest)) = StopRaises ExIncompleteRead.
 Proof.
   exists [Send], 0%Z, TPartBody, [ReaderRun; ServerExitTask]. vm_compute. repeat split; auto.
@@ -85,9 +93,9 @@ Qed.
 (* row 6: a complete frame that cannot be handled, with a report_server_error override that
    raises -> the reader task dies with the hook's exception and stop() re-raises it *)
 Theorem C17_pinned_refuted_errhook :
-  let c := {| fix_eof := true; fix_wrap := false; hook_raises := false; errhook_raises := true |} in
+  let c := {| fix_eof := true; fix_wrap := false; hook := HookOk; errhook_raises := true |} in
   exists h rc t rest,
-    proc (run c h) = Alive /\ In ServerExitTask rest /\ In ReaderRun rest /\
+    proc (run c h) = Alive /\ (needs c <= count_xtask rest)%nat /\ In ReaderRun rest /\
     stop_outcome (run c (h ++ ProcExit rc t :: rest)) = StopRaises ExErrHook.
 Proof.
   exists [Send; SrvWrite BadFrame], 0%Z, TClean, [ReaderRun; ServerExitTask].
@@ -97,14 +105,14 @@ Qed.
 (* In the pinned code the outcome depends on the schedule: if the exit watcher happens to run
    first the reader leaves through the stop flag and nothing is raised. *)
 Example C17_pinned_schedule_dependent :
-  stop_outcome (run (pinned false false) [Send; ProcExit 0%Z TPartBody; ServerExitTask; ReaderRun])
+  stop_outcome (run (pinned HookOk false) [Send; ProcExit 0%Z TPartBody; ServerExitTask; ReaderRun])
   = StopReturns.
 Proof. vm_compute. reflexivity. Qed.
 
 (* The executable check used by the correspondence run, spec_ok, is the conjunction of the
    clauses (ClientProofs.spec_ok_iff), and it accepts the model's final observation for every
    history (reference_agrees); the finer conversation-level expectations (conv_expect) agree with
-   the model on every conversation of at most 7 events over a 9-event alphabet
+   the model on every conversation of at most 7 events over a 9-event alphabet, for the four hook kinds
    (ClientBounded.conv_expect_sound_bounded).
    Missing: agreement of conv_expect with the model for conversations of unbounded length (a
    simulation between the scan and the model state, pipe contents included) is not proved; the
@@ -112,7 +120,7 @@ Proof. vm_compute. reflexivity. Qed.
    (exit error for unanswered requests, frame), and conv_expect is additionally compared with
    the model on every generated case of every run. *)
 Theorem C17_reference_agrees : forall c h rc t rest,
-  good c -> proc (run c h) = Alive -> In ServerExitTask rest -> In ReaderRun rest ->
+  good c -> proc (run c h) = Alive -> (needs c <= count_xtask rest)%nat -> In ReaderRun rest ->
   spec_ok (weak_expects (futs (run c h))) (observe (run c (h ++ ProcExit rc t :: rest))) = true.
 Proof. exact reference_agrees. Qed.
 Print Assumptions C17_reference_agrees.
